@@ -336,12 +336,39 @@ def catalan : List Solid := [
   ⟨"Disdyakis Triacontahedron", 62, 180, 120, [(3, 120)]⟩,
   ⟨"Pentagonal Hexecontahedron", 92, 150, 60, [(5, 60)]⟩ ]
 
-/-- internal consistency of a hand-entered row: Euler's formula, the census adds up to F,
-    and the corners add up to 2E -/
+/-- the 92 Johnson solids by number (Johnson 1966, Table III): V, E, F (no face census entered) -/
+def johnson : List Solid := [
+  ⟨"J1", 5, 8, 5, []⟩, ⟨"J2", 6, 10, 6, []⟩, ⟨"J3", 9, 15, 8, []⟩, ⟨"J4", 12, 20, 10, []⟩,
+  ⟨"J5", 15, 25, 12, []⟩, ⟨"J6", 20, 35, 17, []⟩, ⟨"J7", 7, 12, 7, []⟩, ⟨"J8", 9, 16, 9, []⟩,
+  ⟨"J9", 11, 20, 11, []⟩, ⟨"J10", 9, 20, 13, []⟩, ⟨"J11", 11, 25, 16, []⟩, ⟨"J12", 5, 9, 6, []⟩,
+  ⟨"J13", 7, 15, 10, []⟩, ⟨"J14", 8, 15, 9, []⟩, ⟨"J15", 10, 20, 12, []⟩, ⟨"J16", 12, 25, 15, []⟩,
+  ⟨"J17", 10, 24, 16, []⟩, ⟨"J18", 15, 27, 14, []⟩, ⟨"J19", 20, 36, 18, []⟩, ⟨"J20", 25, 45, 22, []⟩,
+  ⟨"J21", 30, 55, 27, []⟩, ⟨"J22", 15, 33, 20, []⟩, ⟨"J23", 20, 44, 26, []⟩, ⟨"J24", 25, 55, 32, []⟩,
+  ⟨"J25", 30, 65, 37, []⟩, ⟨"J26", 8, 14, 8, []⟩, ⟨"J27", 12, 24, 14, []⟩, ⟨"J28", 16, 32, 18, []⟩,
+  ⟨"J29", 16, 32, 18, []⟩, ⟨"J30", 20, 40, 22, []⟩, ⟨"J31", 20, 40, 22, []⟩, ⟨"J32", 25, 50, 27, []⟩,
+  ⟨"J33", 25, 50, 27, []⟩, ⟨"J34", 30, 60, 32, []⟩, ⟨"J35", 18, 36, 20, []⟩, ⟨"J36", 18, 36, 20, []⟩,
+  ⟨"J37", 24, 48, 26, []⟩, ⟨"J38", 30, 60, 32, []⟩, ⟨"J39", 30, 60, 32, []⟩, ⟨"J40", 35, 70, 37, []⟩,
+  ⟨"J41", 35, 70, 37, []⟩, ⟨"J42", 40, 80, 42, []⟩, ⟨"J43", 40, 80, 42, []⟩, ⟨"J44", 18, 42, 26, []⟩,
+  ⟨"J45", 24, 56, 34, []⟩, ⟨"J46", 30, 70, 42, []⟩, ⟨"J47", 35, 80, 47, []⟩, ⟨"J48", 40, 90, 52, []⟩,
+  ⟨"J49", 7, 13, 8, []⟩, ⟨"J50", 8, 17, 11, []⟩, ⟨"J51", 9, 21, 14, []⟩, ⟨"J52", 11, 19, 10, []⟩,
+  ⟨"J53", 12, 23, 13, []⟩, ⟨"J54", 13, 22, 11, []⟩, ⟨"J55", 14, 26, 14, []⟩, ⟨"J56", 14, 26, 14, []⟩,
+  ⟨"J57", 15, 30, 17, []⟩, ⟨"J58", 21, 35, 16, []⟩, ⟨"J59", 22, 40, 20, []⟩, ⟨"J60", 22, 40, 20, []⟩,
+  ⟨"J61", 23, 45, 24, []⟩, ⟨"J62", 10, 20, 12, []⟩, ⟨"J63", 9, 15, 8, []⟩, ⟨"J64", 10, 18, 10, []⟩,
+  ⟨"J65", 15, 27, 14, []⟩, ⟨"J66", 28, 48, 22, []⟩, ⟨"J67", 32, 60, 30, []⟩, ⟨"J68", 65, 105, 42, []⟩,
+  ⟨"J69", 70, 120, 52, []⟩, ⟨"J70", 70, 120, 52, []⟩, ⟨"J71", 75, 135, 62, []⟩, ⟨"J72", 60, 120, 62, []⟩,
+  ⟨"J73", 60, 120, 62, []⟩, ⟨"J74", 60, 120, 62, []⟩, ⟨"J75", 60, 120, 62, []⟩, ⟨"J76", 55, 105, 52, []⟩,
+  ⟨"J77", 55, 105, 52, []⟩, ⟨"J78", 55, 105, 52, []⟩, ⟨"J79", 55, 105, 52, []⟩, ⟨"J80", 50, 90, 42, []⟩,
+  ⟨"J81", 50, 90, 42, []⟩, ⟨"J82", 50, 90, 42, []⟩, ⟨"J83", 45, 75, 32, []⟩, ⟨"J84", 8, 18, 12, []⟩,
+  ⟨"J85", 16, 40, 26, []⟩, ⟨"J86", 10, 22, 14, []⟩, ⟨"J87", 11, 26, 17, []⟩, ⟨"J88", 12, 28, 18, []⟩,
+  ⟨"J89", 14, 33, 21, []⟩, ⟨"J90", 16, 38, 24, []⟩, ⟨"J91", 14, 26, 14, []⟩, ⟨"J92", 18, 36, 20, []⟩ ]
+
+/-- internal consistency of a hand-entered row: Euler's formula and, when a census was entered,
+    the census adds up to F and the corners add up to 2E -/
 def Solid.consistent (s : Solid) : Bool :=
   Nat.beq (s.v + s.f) (s.e + 2)
-    && Nat.beq ((s.faces.map Prod.snd).foldl (· + ·) 0) s.f
-    && Nat.beq ((s.faces.map fun kc => kc.1 * kc.2).foldl (· + ·) 0) (2 * s.e)
+    && (s.faces.isEmpty ||
+      (Nat.beq ((s.faces.map Prod.snd).foldl (· + ·) 0) s.f
+        && Nat.beq ((s.faces.map fun kc => kc.1 * kc.2).foldl (· + ·) 0) (2 * s.e)))
 
 end Textbook
 
@@ -375,7 +402,12 @@ def archimedeanOk (e : Entry) : Bool :=
   polyhedronOk e && textbookOk Textbook.archimedean e && unitVolumeOk e && regularOk e
 def catalanOk (e : Entry) : Bool :=
   polyhedronOk e && textbookOk Textbook.catalan e && unitVolumeOk e && insphereOk e
-def johnsonOk (e : Entry) : Bool := polyhedronOk e && regularOk e
+/-- the entry's Johnson number (`short_name`) is in the hand-entered list with these counts -/
+def johnsonCountsOk (e : Entry) : Bool :=
+  match Textbook.johnson.find? (fun s => s.name == e.short) with
+  | none => false
+  | some s => matchesTextbook s e
+def johnsonOk (e : Entry) : Bool := polyhedronOk e && regularOk e && johnsonCountsOk e
 def plainOk (e : Entry) : Bool := polyhedronOk e
 def repositoryOk (lookup : String → List Entry) (e : Entry) : Bool :=
   polyhedronOk e && sourceOk lookup e
